@@ -17,6 +17,9 @@ CHECKS = {
  "C06": dict(level="exploration", ref="7/C06",
    text="Systematic sweep of every (N in 8..24, size in {N-2..N+2, ~10N}, DATA or BDAT in 1..4 chunks) plus seeded larger limits, chunk cut points, SIZE= parameters (N-1, N, N+1, 2^32-1, 11 and 20 digit values, malformed), read sizes and segmentation. Oracles: backend never reads more than N octets; a message over N is never presented as complete (non-EOF reader error, 552, envelope gone: a DATA probe is refused); SIZE>N is refused 552 without a Mail callback; a message of at most N octets arrives complete with EOF and 250 exactly as without a limit.",
    note="Size is judged on messages without dot-stuffing (wire size = backend size). The backend propagates the reader's error as its verdict, as io.ReadAll-based backends do."),
+ "C07": dict(level="fault_enumeration", ref="7/C07",
+   text="For each conversation of a seeded corpus (1-3 transactions, DATA and BDAT, SMTP and LMTP, partial end markers in the text, transfers abandoned by RSET/QUIT/EHLO/MAIL/nothing) the connection is cut at EVERY octet offset of the client's stream (FIN), and with RST, half-close and stall-until-ReadTimeout at every 5th/7th/9th offset. Oracle per message: if its last octet (end marker / LAST payload) was not delivered, the backend reader never reports EOF, a backend reading to the end gets a non-EOF error and returns, and no 2xx final reply is written; whenever the reader reports EOF the octets are the whole message; the fault-free base run of every conversation must be healthy.",
+   note="Exhaustive over cut offsets of the generated corpus, not over all conversations. The backend reads to the end (Session.Data documents that r must be consumed), so a backend that accepts early is outside the contract and not judged."),
  "C01": dict(level="exploration", ref="7/C01",
    text="Seeded search plus a systematic sweep of all 5461 bodies over the byte classes {'.',CR,LF,other} up to length 6, each run under a drawn transport segmentation, server short-read plan and backend read-size plan; the octets and terminal error the real dataReader hands the backend are compared with an RFC 5321 reference unstuffer. Sampling, not proof: evidence of byte-exactness over the explored streams x schedules.",
    note="Trusts: the reference unstuffer (cross-checked against a reference stuffer), Go's testing/synctest fake clock, go1.26.8 building go-smtp the same way go1.23.5 does."),
